@@ -10,7 +10,7 @@ WHAT = {
  "C04": "refs(D) = {u : goto(u) = D} on layout + chain tables, again after an in-place re-index (cleanup / fresh path); mirror; CLI unused; LSP tier: code lens = incoming calls = usages navigating to D (exact); random workspaces (library + LSP); own-import workspaces with a sibling test module",
  "C05": "four resolvers asked about the same (file, name) / (fixture, dependency); workspace-root variation; LSP tier: definition / implementation / prepare / hover / outgoing calls (prepared at a usage and on the definition) / inlay-hint type agree; random workspaces (library + LSP); workspaces whose conftest.py is a symbolic link (agreement only)",
  "C06": "every history (L ≤ 3) on long-lived vs fresh twin; B2 traces validated by TLC; LSP tier: 150 histories sent to the real binary (warm / burst / plain) vs a fresh server, all handlers, incl. random histories of 5..9 notifications and an earlier editing session; the repository's own test-suite validated against SuiteTrace.tla (oracle: fresh database); LspTrace.tla on every session",
- "C07": "four History.tla configurations (main incl. an unparsable importer, scan-as-event, conftest chain, closes of MODIFIED documents with the cold twin closing too): every interleaving of edits / cached queries (incl. cycle detection) / close / evict, warm vs cold twin on disk; real pressure eviction; LSP tiers (main + chain family with didOpen of unmodified documents as an event); B2 traces; 64 hand-built histories closing a conftest WITHOUT saving after an import-only edit, judged against a never-opened twin",
+ "C07": "four History.tla configurations (main incl. an unparsable importer, scan-as-event, conftest chain, closes of MODIFIED documents with the cold twin closing too): every interleaving of edits / cached queries (incl. cycle detection) / close / evict, warm vs cold twin on disk; real pressure eviction; LSP tiers (main + chain family with didOpen of unmodified documents as an event); B2 traces; 192 hand-built histories (go-to-definition / available fixtures / imported names) closing a conftest WITHOUT saving after an import-only edit, judged against a never-opened twin",
  "C08": "snapshot under every registration order (layout table) + cycle reports over orders and fresh processes' hash seeds (dep-graph table); random workspaces; own-import workspaces under two registration orders; one large workspace served by 4 fresh processes; field-level snapshots of override chains under every permutation of the files; own-import workspaces six times each (fresh hash seeds) incl. the unused list",
  "C09": "Conc.tla exhaustive + 1 500 simulated behaviours × {natural, one-shard} + random schedules on real threads (incl. files requesting one name twice); after quiescence every file is re-analysed once more and the reverse index must mirror; every lock log validated by TLC against ConcTrace.tla",
  "C10": "scan worker ∥ editor on the same file: simulated behaviours + both coarse orders, then every text as one further change; real binary racing the scan (also with the document being a symlink, opened AND edited during the scan, below a directory named like an exclude pattern)",
